@@ -7,10 +7,21 @@ import (
 // C12: nearest-neighbour queries on well-formed trees (grid boxes, grid
 // query point; squared distances are exact integers).
 
+// boxes for the nearest-neighbour harnesses: signed 2-bit (quick) / 3-bit
+// (thorough) integer grid
+func vNNBox() *geom.Bounds {
+	w := vBound(2, 3)
+	b := &geom.Bounds{}
+	b.Min.X, b.Min.Y = vGrid(w, 0), vGrid(w, 0)
+	b.Max.X, b.Max.Y = vGrid(w, 0), vGrid(w, 0)
+	vAssume(vAnd(b.Min.X <= b.Max.X, b.Min.Y <= b.Max.Y))
+	return b
+}
+
 func (s *vState) arithLeaf(n int) *node {
 	nd := &node{leaf: true, level: 1}
 	for i := 0; i < n; i++ {
-		o := vArithBox()
+		o := vNNBox()
 		nd.entries = append(nd.entries, entry{bb: o.Bounds(), obj: o})
 		s.objs = append(s.objs, o)
 	}
@@ -63,7 +74,7 @@ func vIndexOf(objs []geom.Geom, o geom.Geom) int {
 }
 
 func vCheckKNN(s *vState, k int) {
-	p := geom.Point{X: vGrid(3, 0), Y: vGrid(3, 0)}
+	p := geom.Point{X: vGrid(vBound(3, 4), 0), Y: vGrid(vBound(3, 4), 0)}
 	var res []geom.Geom
 	if vCatch(func() { res = s.tree.NearestNeighbors(k, p) }) {
 		vAssert(false, "nearestneighbors-panics")
@@ -117,7 +128,7 @@ func VH_C12_knn_h2_wide() {
 
 func VH_C12_nn() {
 	s := vNNTree(1 + vChoose(2))
-	p := geom.Point{X: vGrid(3, 0), Y: vGrid(3, 0)}
+	p := geom.Point{X: vGrid(vBound(3, 4), 0), Y: vGrid(vBound(3, 4), 0)}
 	var r geom.Geom
 	if vCatch(func() { r = s.tree.NearestNeighbor(p) }) {
 		vAssert(false, "nearestneighbor-panics")
